@@ -209,7 +209,7 @@ Ltac ifsplit H :=
   | context [if ?c then _ else _] => destruct c eqn:?
   end; cbn beta iota zeta in *.
 
-Ltac fgo IH H N := repeat (first [ fin H | ifsplit H | fsub IH H N | fsplit H ]).
+Ltac fgo IH H N := rewrite ?declares_fold; repeat (first [ fin H | ifsplit H | fsub IH H N | fsplit H ]; rewrite ?declares_fold).
 
 (* statements first: their folded form is the same constructor *)
 Lemma fo_stmt_S f (IH : foldok f) : forall d top env st s st' r,
